@@ -13,6 +13,14 @@ Containers: integer-typed frequency / amplitude / target arrays (array level and
 argument arrays for a sequence of calls (unchanged afterwards); ownership: the caller overwrites, in place, the
 target array it gave to the constructor / a setter after the smoothed spectrum was read - the object must keep
 reporting the same targets, with the Konno-Ohmachi means at the targets it reports.
+Third round (hidden tolerances, containers, histories, returned arrays, module-level state, corners): scale factors 2.5,
+-2e-9 and 1e+9; targets a relative 1e-7 / 5e-6 next to every Fourier frequency (only exact equality is a coincidence), targets
+30 decades away, as many off-grid targets as Fourier frequencies (square weight matrix), the whole frequency axis scaled by 1e-9
+(the window depends on frequency ratios only), b = 12.5 next to the smallest and largest b; uint8 / int16 / float32 argument
+arrays; the sequence A, A, B, A over target sets / amplitude words / Fourier grids that share length and end values, with the
+caller overwriting the returned arrays in place, and default-band calls around an explicit band; get_sig_array_indexes_range on
+the amplitude word itself (float64 / int64 / uint8 / float32 / scaled 1e-9); objects that held a record of another length
+(smoothed, other band) before reset_values, for records scaled by 1, 1e-9, 1e+6; the deprecated range / points setters.
 """
 import math
 
@@ -27,7 +35,7 @@ DT = 0.01
 BANDS = (5, 20, 40, 100)
 ZEROS = ('none', 'a0=0', 'a0=7')
 TSETS = ('none', 'grid', 'off-grid', 'far-outside', 'last-and-1.5x', 'mixed-unsorted')
-SCALES = (2.5, -2.0)
+SCALES = (2.5, -2e-9, 1e9)      # ordinary, negative and tiny, huge (the relation is relative: no absolute level anywhere)
 RATIOS = (None, 0.5, 0.9)       # None: the default 0.707
 SIG_RATIOS = (None, 2)          # get_sig_freq_range: None = default 15
 PHASES = (1, -1, 1j, -1j, (0.6 + 0.8j))
@@ -41,7 +49,22 @@ CONTAINERS = (('int-amplitudes', 'bins', float, np.int64, 'none', None),
               ('int-grid-targets-none', 'whole-hz', np.int64, float, 'none', None),
               ('all-int', 'whole-hz', np.int64, np.int64, 'whole-hz-1..8', np.int64),
               ('int-grid-float-targets', 'whole-hz', np.int64, float, 'off-grid', float))
+# narrow / unsigned integer and float32 argument arrays (float32 frequencies TOGETHER with float32 targets give float32-accurate
+# weights on the unchanged tree - the quotient is formed in float32 - and are not examined)
+CONTAINERS += (('uint8-amplitudes', 'bins', float, np.uint8, 'off-grid', float),
+               ('float32-amplitudes', 'bins', float, np.float32, 'none', None),
+               ('all-uint8', 'whole-hz', np.uint8, np.uint8, 'whole-hz-1..8', np.uint8),
+               ('int16-grid-targets-none', 'whole-hz', np.int16, float, 'none', None),
+               ('float32-grid-float64-targets', 'whole-hz', np.float32, float, 'off-grid', float),
+               ('float32-targets-around-grid', 'bins', float, float, 'whole-hz-around-grid', np.float32))
 CONTAINER_ZEROS = ('none', 'a0=7')
+# extended target sets / corners: (label, factor on the whole frequency axis, target set), direct and matrix form, b in EXT_BANDS
+EXT_BANDS = (5, 12.5, 100)
+EXT_SETS = (('near-grid', 1.0, 'near-grid'), ('decades', 1.0, 'decades'), ('square-off-grid', 1.0, 'square-off-grid'),
+            ('tiny-frequencies-grid', 1e-9, 'grid'), ('tiny-frequencies-off-grid', 1e-9, 'off-grid'))
+NEAR_BELOW, NEAR_ABOVE = 1 - 5e-6, 1 + 1e-7
+ABA_BANDS = (5, 100)
+HIST_SCALES = (1.0, 1e-9, 1e6)  # records of the objects with a history
 WHOLE_HZ = list(range(1, 9))    # whole-Hz targets 1..8 (what np.arange(1, 9) holds)
 
 
@@ -64,15 +87,27 @@ def build(tier, seed):
                 '(direct and matrix form, the same argument arrays for the whole sequence, unchanged afterwards); + on the objects: '
                 'targets given as list / float64 array / strided view / int64 array through the constructor, both setters and '
                 'gen_smooth_fa_spectrum, the caller overwriting its array in place after the smoothed spectrum was read; '
+                '+ extended target sets %s x zero bin x b in %s (direct and matrix form); + call sequences A, A, B, A with B = other '
+                'targets / amplitudes / Fourier grid of the same length and end values, b in %s, returned arrays overwritten in place, '
+                'and default band / band=5 / default band; + get_sig_array_indexes_range on the word as float64 / int64 / uint8 / '
+                'float32 / x 1e-9; + objects that held another record (2N+1 samples, smoothed, band 5) before reset_values, records '
+                'scaled by %s, Signal and AccSignal (up to 8 bins); scale factors %s; '
                 'non-trivial = word not all zero'
                 % ([m + 1 for m, a in fam if len(a) == 3], '' if quick else ' and all words over {0,1} for 16 bins',
-                   list(TSETS), list(BANDS), [c[0] for c in CONTAINERS], list(CONTAINER_ZEROS)),
+                   list(TSETS), list(BANDS), [c[0] for c in CONTAINERS], list(CONTAINER_ZEROS), [e[0] for e in EXT_SETS],
+                   list(EXT_BANDS), list(ABA_BANDS), list(HIST_SCALES), list(SCALES)),
         'bounds': {'alphabet': [0, 1, 3], 'bins_incl_zero': [m + 1 for m, a in fam], 'dt': DT, 'bands': BANDS,
                    'target_sets': TSETS, 'zero_bin': ZEROS, 'bandwidth_ratios': [0.707, 0.5, 0.9],
                    'sig_freq_range_ratios': [15, 2],
                    'containers': [[c[0], c[1], np.dtype(c[2]).name, np.dtype(c[3]).name, c[4], np.dtype(c[5]).name if c[5] else None]
                                   for c in CONTAINERS],
-                   'container_zero_bin': CONTAINER_ZEROS,
+                   'container_zero_bin': CONTAINER_ZEROS, 'scale_factors': SCALES,
+                   'extended_target_sets': [list(e) for e in EXT_SETS], 'extended_bands': EXT_BANDS,
+                   'near_grid_relative_offsets': [NEAR_BELOW - 1, NEAR_ABOVE - 1], 'sequence_bands': ABA_BANDS,
+                   'call_sequences': ['A, A, B=targets, A, B=amplitudes, A, B=frequencies, A (B shares length and end values)',
+                                      'default band, band=5, default band', 'second call after the returned array was overwritten'],
+                   'history_record_scales': HIST_SCALES,
+                   'sig_array_containers': ['float64', 'int64', 'uint8', 'float32', 'float64 x 1e-9'],
                    'caller_overwrites_its_target_array_after': ['constructor (every target set)', 'smooth_fa_freqs=',
                                                                 'smooth_fa_frequencies=', 'view of a table']},
         'required_classes': ['target-none', 'target-on-grid', 'target-off-grid-inside', 'target-outside',
@@ -83,11 +118,22 @@ def build(tier, seed):
                              'scaling', 'bandwidth-lo<hi', 'bandwidth-lo==hi', 'bandwidth-interior', 'bandwidth-full-range',
                              'smoothed-strictly-inside-range', 'int-typed-targets', 'int-typed-frequencies',
                              'int-typed-amplitudes', 'int-typed-targets-on-object', 'caller-overwrites-target-array',
-                             'caller-overwrites-view-base'],
+                             'caller-overwrites-view-base',
+                             'ext:near-grid', 'ext:decades', 'ext:square-off-grid', 'ext:tiny-frequencies-grid',
+                             'ext:tiny-frequencies-off-grid', 'square-matrix-off-grid', 'b=12.5', 'A-B-A',
+                             'default-after-explicit-band', 'sig-array-indexes', 'narrow-or-unsigned-typed-argument',
+                             'float32-typed-argument', 'object-with-history', 'object-record-tiny', 'object-record-large',
+                             'returned-array-overwritten', 'narrow-typed-targets-on-object', 'deprecated-target-setters'],
         'assumptions': ['amplitudes outside {0,1,3} (x scale factors, unit phases) and grids above the bound are not examined',
                         'target frequencies are positive and finite (the window is undefined at 0)',
-                        'b only on the menu {5,20,40,100}; frequencies / amplitudes / targets passed as float64 or int64 ndarrays '
-                        '(lists are not accepted by the array-level functions; float32 not examined)',
+                        'b only on the menu {5,20,40,100} (+ 12.5 for the extended target sets); frequencies / amplitudes / targets '
+                        'passed as float64, int64, uint8, int16 or float32 ndarrays (lists are not accepted by the array-level '
+                        'functions; float32 frequencies together with float32 targets are float32-accurate on the unchanged tree and '
+                        'are not examined)',
+                        'the array Signal.smooth_fa_spectrum hands out is the object\'s own cache on the unchanged tree: it is never '
+                        'overwritten by the check (arrays returned by the free functions are)',
+                        'the default band is not fixed by the property at array level (default calls are compared with each other); '
+                        'on the objects the lazy spectrum after a target change is compared with b = 40',
                         'the object is expected to own its target frequencies for the constructor and the two setters; '
                         'gen_smooth_fa_spectrum(smooth_fa_freqs=array) is NOT followed by an overwrite of the array (it stores the '
                         'caller\'s array on the unchanged tree: reported separately)',
@@ -126,6 +172,13 @@ def target_set(name, fpos):
         return [fpos[-1], 1.5 * fpos[-1]]
     if name == 'mixed-unsorted':
         return [fpos[-1], 0.5 * fpos[0], fpos[0], fpos[0]]
+    if name == 'near-grid':
+        # just below / just above every Fourier frequency: nearly, but not, coincident
+        return [v for f in fpos for v in (f * NEAR_BELOW, f * NEAR_ABOVE)]
+    if name == 'decades':
+        return [1e-30, 1e-9, 1e9, 1e30]
+    if name == 'square-off-grid':
+        return [1.07 * f for f in fpos]
     if name == 'whole-hz-1..8':
         return list(WHOLE_HZ)
     if name == 'whole-hz-around-grid':
@@ -146,10 +199,10 @@ def is_ascending(t):
 
 
 # ------------------------------------------------------------------------------ checks on one result
-def check_smoothed(r, sub, sm, ref, apos, targets, fpos, coincide):
+def check_smoothed(r, sub, sm, ref, apos, targets, fpos, coincide, floor=FLOOR):
     amax = max(apos)
     amin = min(apos)
-    ok = r.expect_close('reference', sub, sm, ref, rtol=1e-10, scale=max(float(amax), FLOOR), what='smoothed vs scalar Konno-Ohmachi mean')
+    ok = r.expect_close('reference', sub, sm, ref, rtol=1e-10, scale=max(float(amax), floor), what='smoothed vs scalar Konno-Ohmachi mean')
     try:
         g = np.asarray(sm, dtype=float)
         if g.shape != (len(targets),):
@@ -209,6 +262,15 @@ def bandwidth_checks(r, sub, s, tg, ref, ratio_kw, fn_name):
         ok, out = r.call('bandwidth', s2, fn)
         if not ok:
             continue
+        if isinstance(out, np.ndarray) and out.size:
+            # returned array: the caller overwrites it in place; a second call must give the first answer again
+            first = np.array(out)
+            out[...] = -1
+            ok, again = r.call('bandwidth', s2, fn)
+            r.expect('repeatable', s2, ok and isinstance(again, np.ndarray) and again.shape == first.shape
+                     and np.array_equal(again, first), 'second call differs after the caller overwrote the first result in place',
+                     observed=again, expected=first)
+            out = first
         try:
             if kind == 'pair':
                 if len(out) != 2:
@@ -280,6 +342,291 @@ def check_after_overwrite(r, sub, s, tg_before, ref_before, fpos_o, apos_o, band
     r.expect_close('reference', sub, sm2, ref, rtol=1e-10, scale=max(max(apos_o), FLOOR),
                    what='smoothed spectrum vs Konno-Ohmachi mean at the targets the object reports, after the caller overwrote its '
                         'own target array')
+
+
+def check_matrix(r, s3, M, m, nt, W):
+    """Weight matrix: shape, finite, non-negative, unit column sums, reference.  Returns the float matrix or None."""
+    try:
+        Mg = np.asarray(M, dtype=float)
+        if Mg.shape != (m, nt):
+            raise ValueError('shape %s, expected %s' % (Mg.shape, (m, nt)))
+    except Exception as e:
+        r.fail('matrix', s3, 'malformed smoothing matrix: %s' % e, observed=M)
+        return None
+    r.expect('matrix.finite', s3, bool(np.all(np.isfinite(Mg))), 'non-finite weight', observed=Mg)
+    r.expect('matrix.nonneg', s3, bool(np.all(Mg >= 0)), 'negative weight', observed=Mg)
+    r.expect_close('matrix.colsum', s3, Mg.sum(axis=0), np.ones(nt), rtol=1e-12, what='weights of one target do not sum to one')
+    r.expect_close('matrix.reference', s3, Mg, np.array(W), rtol=1e-10, scale=1.0,
+                   what='weights vs normalised [sin(x)/x]^4, x = b log10(f/fc), 1 at f = fc')
+    return Mg
+
+
+def scribble(out):
+    """The caller re-uses, in place, an array a function returned to it."""
+    if isinstance(out, np.ndarray) and out.flags.writeable and out.size:
+        out[...] = -5
+
+
+def run_extended(r, a, m, fpos, apos):
+    """Corners of the quantifier and hidden tolerances, direct and matrix form (see EXT_SETS): targets nearly on the grid, many
+    decades away, a square weight matrix, the whole frequency axis scaled by 1e-9; b in EXT_BANDS.  The same argument arrays
+    serve all calls of one configuration and must come back unchanged."""
+    amax = max(a)
+    for zero in CONTAINER_ZEROS:
+        for label, fscale, tname in EXT_SETS:
+            fp = [f * fscale for f in fpos]
+            tl = target_set(tname, fp)
+            ff = np.array(([] if zero == 'none' else [0.0]) + fp)
+            aa = np.array(([] if zero == 'none' else [7.0]) + apos)
+            targets = np.array(tl)
+            coincide = any(t in fp for t in tl)
+            r.cls('ext:' + label)
+            if coincide:
+                r.cls('coincidence')
+            if len(tl) == m and not coincide:
+                r.cls('square-matrix-off-grid')
+            snaps = [snapshot(v) for v in (ff, aa, targets)]
+            for b in EXT_BANDS:
+                r.states += 1
+                r.cls('b=%s' % b)
+                W = ref_matrix((m, 'x-' + label), fp, tl, b)
+                ref = fr.ko_smooth(W, apos)
+                sub = {'a': a, 'zero': zero, 'ext': label, 'b': b}
+                s1 = dict(sub, entry='calc_smooth_fa_spectrum')
+                ok, direct = r.call('reference', s1, frequency.calc_smooth_fa_spectrum, ff, aa, targets, band=b)
+                good = ok and check_smoothed(r, s1, direct, ref, apos, tl, fp, coincide)
+                s3 = dict(sub, entry='calc_smoothing_matrix_konno_1998')
+                ok, M = r.call('matrix', s3, frequency.calc_smoothing_matrix_konno_1998, ff, targets, band=b)
+                Mg = check_matrix(r, s3, M, m, len(tl), W) if ok else None
+                if Mg is not None and good:
+                    r.transitions += 1
+                    r.expect_close('matrix==direct', s3, np.dot(np.abs(aa[-m:]), Mg), direct, rtol=1e-10,
+                                   scale=max(float(amax), FLOOR), what='np.dot(|amplitudes|, matrix) vs direct form')
+            r.expect('arguments-unchanged', {'a': a, 'zero': zero, 'ext': label},
+                     [snapshot(v) for v in (ff, aa, targets)] == snaps,
+                     'a smoothing function modified one of its argument arrays (frequencies, amplitudes, targets)',
+                     observed=(ff, aa, targets))
+
+
+def run_sequences(r, a, m, fpos, apos):
+    """Module-level state and returned arrays.  The calls A, A, B, A, where B differs from A in ONE argument that shares its length and
+    its first and last value with A's (target set / amplitude word / Fourier grid; for fewer than three entries: same length
+    only); the caller overwrites the arrays the first call returned before it goes on.  Every B is checked against the reference,
+    every repetition of A against a private copy of the first result.  Then: default band, explicit band 5, default band."""
+    amax = max(a)
+
+    def same_ends(vals, alt, alt_short):
+        return [vals[0]] + [alt(v) for v in vals[1:-1]] + [vals[-1]] if len(vals) >= 3 else [alt_short(v) for v in vals]
+    T = target_set('off-grid', fpos)
+    T2 = same_ends(T, lambda v: 1.01 * v, lambda v: 1.01 * v)
+    A2 = same_ends(apos, lambda v: 3.0 - v, lambda v: v + 1.0)
+    F2 = same_ends(fpos, lambda v: 1.003 * v, None) if m >= 3 else None
+    for zero in CONTAINER_ZEROS:
+        f0 = [] if zero == 'none' else [0.0]
+        a0 = [] if zero == 'none' else [7.0]
+        ff, aa, tg = np.array(f0 + fpos), np.array(a0 + apos), np.array(T)
+        tg2, aa2 = np.array(T2), np.array(a0 + A2)
+        ff2 = None if F2 is None else np.array(f0 + F2)
+        held = [ff, aa, tg, tg2, aa2] + ([] if ff2 is None else [ff2])
+        snaps = [snapshot(v) for v in held]
+        r.cls('A-B-A')
+
+        def direct(sub, f_, a_, t_, key, fl, al, tl, b, want=None):
+            """one direct-form call; checked against the reference (want is None) or against the private copy `want`"""
+            ok, out = r.call('reference' if want is None else 'repeatable', sub, frequency.calc_smooth_fa_spectrum, f_, a_, t_, band=b)
+            if not ok:
+                return None
+            if want is None:
+                if not check_smoothed(r, sub, out, fr.ko_smooth(ref_matrix(key, fl, tl, b), al), al, tl, fl, False):
+                    return None
+            else:
+                r.transitions += 1
+                r.expect_close('repeatable', sub, out, want, rtol=1e-12, scale=max(float(amax), FLOOR),
+                               what='calc_smooth_fa_spectrum(A) after a call with B (same length, same end values) and after the '
+                                    'caller overwrote the first result in place')
+            return out
+
+        def matrix(sub, f_, t_, key, fl, tl, b, want=None):
+            ok, M = r.call('matrix' if want is None else 'repeatable', sub, frequency.calc_smoothing_matrix_konno_1998, f_, t_, band=b)
+            if not ok:
+                return None
+            if want is None:
+                if check_matrix(r, sub, M, m, len(tl), ref_matrix(key, fl, tl, b)) is None:
+                    return None
+            else:
+                r.transitions += 1
+                r.expect_close('repeatable', sub, M, want, rtol=1e-12, scale=1.0,
+                               what='calc_smoothing_matrix_konno_1998(A) after a call with B and after the caller overwrote the '
+                                    'first result in place')
+            return M
+        for b in ABA_BANDS:
+            r.states += 1
+            sub = {'a': a, 'zero': zero, 'b': b, 'sequence': 'A,A,B,A'}
+            kA = (m, 'aba-A')
+            d1 = direct(dict(sub, call='A', entry='direct'), ff, aa, tg, kA, fpos, apos, T, b)
+            M1 = matrix(dict(sub, call='A', entry='matrix'), ff, tg, kA, fpos, T, b)
+            if d1 is None or M1 is None:
+                continue
+            keep_d, keep_M = np.array(d1), np.array(M1)
+            scribble(d1)
+            scribble(M1)
+            # A again at once (a result handed out twice would now hold the caller's values)
+            scribble(direct(dict(sub, call='A again', entry='direct'), ff, aa, tg, kA, fpos, apos, T, b, want=keep_d))
+            scribble(matrix(dict(sub, call='A again', entry='matrix'), ff, tg, kA, fpos, T, b, want=keep_M))
+            # B: other targets
+            direct(dict(sub, call='B=targets', entry='direct', B=T2), ff, aa, tg2, (m, 'aba-T2'), fpos, apos, T2, b)
+            matrix(dict(sub, call='B=targets', entry='matrix', B=T2), ff, tg2, (m, 'aba-T2'), fpos, T2, b)
+            scribble(direct(dict(sub, call='A after B=targets', entry='direct'), ff, aa, tg, kA, fpos, apos, T, b, want=keep_d))
+            scribble(matrix(dict(sub, call='A after B=targets', entry='matrix'), ff, tg, kA, fpos, T, b, want=keep_M))
+            # B: other amplitudes
+            direct(dict(sub, call='B=amplitudes', entry='direct', B=A2), ff, aa2, tg, kA, fpos, A2, T, b)
+            scribble(direct(dict(sub, call='A after B=amplitudes', entry='direct'), ff, aa, tg, kA, fpos, apos, T, b, want=keep_d))
+            # B: other Fourier grid
+            if ff2 is not None:
+                direct(dict(sub, call='B=frequencies', entry='direct', B=F2), ff2, aa, tg, (m, 'aba-F2'), F2, apos, T, b)
+                matrix(dict(sub, call='B=frequencies', entry='matrix', B=F2), ff2, tg, (m, 'aba-F2'), F2, T, b)
+                direct(dict(sub, call='A after B=frequencies', entry='direct'), ff, aa, tg, kA, fpos, apos, T, b, want=keep_d)
+                matrix(dict(sub, call='A after B=frequencies', entry='matrix'), ff, tg, kA, fpos, T, b, want=keep_M)
+        # default band, explicit band, default band (the default itself is not fixed by the property: first == third)
+        r.states += 1
+        r.cls('default-after-explicit-band')
+        sub = {'a': a, 'zero': zero, 'sequence': 'default band, band=5, default band'}
+        for entry, call in (('direct', lambda **kw: frequency.calc_smooth_fa_spectrum(ff, aa, tg, **kw)),
+                            ('deprecated-order', lambda **kw: frequency.generate_smooth_fa_spectrum(tg, ff, aa, **kw)),
+                            ('matrix', lambda **kw: frequency.calc_smoothing_matrix_konno_1998(ff, tg, **kw))):
+            s2 = dict(sub, entry=entry)
+            ok, e1 = r.call('repeatable', s2, call)
+            if not ok:
+                continue
+            try:
+                keep = np.array(e1, dtype=float)
+            except Exception as e:
+                r.fail('repeatable', s2, 'malformed result: %s' % e, observed=e1)
+                continue
+            scribble(e1)
+            ok, _ = r.call('repeatable', dict(s2, call='band=5'), call, band=5)
+            ok, e3 = r.call('repeatable', dict(s2, call='default again'), call)
+            if ok:
+                r.transitions += 1
+                r.expect_close('repeatable', s2, e3, keep, rtol=1e-12, scale=max(float(np.max(np.abs(keep))), FLOOR),
+                               what='default-band call after an explicit band=5 call differs from the default-band call before it')
+        r.expect('arguments-unchanged', {'a': a, 'zero': zero, 'sequence': 'A,A,B,A'}, [snapshot(v) for v in held] == snaps,
+                 'a smoothing function modified one of its argument arrays (frequencies, amplitudes, targets)', observed=held)
+
+
+def run_sig_indexes(r, a):
+    """frequency.get_sig_array_indexes_range on the amplitude word itself (any non-negative series with a positive peak is a
+    possible smoothed spectrum): indices ordered, both above max/ratio, the peak between them - for float64 / int64 / uint8 /
+    float32 arrays and the word scaled by 1e-9 (the rule is relative to the peak)."""
+    m = len(a)
+    mx = max(a)
+    if mx <= 0:
+        return
+    for cname, arr in (('float64', np.array(a, dtype=float)), ('int64', np.array(a, dtype=np.int64)),
+                       ('uint8', np.array(a, dtype=np.uint8)), ('float32', np.array(a, dtype=np.float32)),
+                       ('float64 x 1e-9', np.array(a, dtype=float) * 1e-9)):
+        snap = snapshot(arr)
+        for ratio in SIG_RATIOS:
+            r.states += 1
+            r.cls('sig-array-indexes')
+            rt = 15 if ratio is None else ratio
+            sub = {'a': a, 'fn': 'get_sig_array_indexes_range', 'container': cname, 'ratio': rt}
+            kw = {} if ratio is None else {'ratio': ratio}
+            ok, out = r.call('bandwidth', sub, frequency.get_sig_array_indexes_range, arr, **kw)
+            if not ok:
+                continue
+            try:
+                if len(out) != 2:
+                    raise ValueError('length %d' % len(out))
+                i0, i1 = int(out[0]), int(out[1])
+                if i0 != out[0] or i1 != out[1] or not (0 <= i0 < m and 0 <= i1 < m):
+                    raise ValueError('not indices into the series')
+            except Exception as e:
+                r.fail('bandwidth', sub, 'malformed result: %s' % e, observed=out)
+                continue
+            # a[i] * ratio > max, decided on the integers of the word (no level of {0,1,3} is on the limit for ratio 15 or 2)
+            above = [i for i in range(m) if a[i] * rt > mx]
+            peaks = [i for i in range(m) if a[i] == mx]
+            r.expect('bandwidth.member', sub, i0 in above and i1 in above, 'an index whose value does not exceed max/ratio',
+                     observed=(i0, i1), expected=above)
+            r.expect('bandwidth.ordered', sub, i0 <= i1, 'first index above the last', observed=(i0, i1))
+            r.expect('bandwidth.brackets-peak', sub, any(i0 <= p <= i1 for p in peaks), 'peak not inside the index range',
+                     observed=(i0, i1), expected=peaks)
+        r.expect('arguments-unchanged', {'a': a, 'fn': 'get_sig_array_indexes_range', 'container': cname}, snapshot(arr) == snap,
+                 'get_sig_array_indexes_range modified the series it was given', observed=arr)
+
+
+def run_histories(r, a, m, N, f_all, apos, phases):
+    """Objects with a history, records at three absolute levels.  The object first holds ANOTHER record of another length (2N + 1
+    samples) with the targets under test, has its FAS and smoothed spectrum read, is smoothed with band 5 and asked for its
+    bandwidth; then reset_values(record).  Afterwards: lazy smoothed spectrum == array function on the FAS the object reports
+    (default band after the explicit one), gen_smooth_fa_spectrum(band) vs the reference, bandwidth limits (scale-free: relative
+    to the smoothed peak) for the records scaled by 1, 1e-9 and 1e+6."""
+    fpos = f_all[1:]
+    amax = max(a)
+    tl = target_set('off-grid', fpos)
+    for scale in HIST_SCALES:
+        X = np.array([7.0] + [apos[i] * phases[i] for i in range(m)] + [0.0], dtype=complex) * scale / DT
+        x = np.fft.irfft(X, n=N)
+        other = np.concatenate([3.0 * x[::-1] + scale, x, [2.0 * scale]])
+        for cname in ('Signal', 'AccSignal'):
+            cls = getattr(eqsig, cname)
+            sub = {'a': a, 'a0': 7.0, 'cls': cname, 'targets': 'off-grid', 'history': 'other record of 2N+1 samples smoothed before '
+                   'reset_values', 'scale': scale}
+            r.states += 1
+            r.cls('object-with-history')
+            if scale != 1:
+                r.cls('object-record-tiny' if scale < 1 else 'object-record-large')
+
+            def build_():
+                s_ = cls(other, DT, smooth_fa_freqs=list(tl))
+                _ = (s_.fa_spectrum, s_.fa_freqs, np.array(s_.smooth_fa_spectrum))
+                s_.gen_smooth_fa_spectrum(band=5)
+                try:
+                    _ = im.calc_bandwidth_freqs(s_)     # part of the history only (judged below, on the record under test)
+                except Exception:
+                    pass
+                s_.reset_values(x.copy())
+                return s_
+            ok, s = r.call('object', sub, build_)
+            if not ok:
+                continue
+            ok, st = r.call('object', sub, lambda: (np.array(s.smooth_fa_spectrum), np.array(s.fa_freqs), np.array(s.fa_spectrum),
+                                                    np.array(s.smooth_fa_freqs, dtype=float)))
+            if not ok:
+                continue
+            lazy, ff_o, fa_o, tg_o = st
+            if ff_o.ndim != 1 or ff_o.shape != fa_o.shape or len(ff_o) < 2 or ff_o[0] != 0 or np.any(ff_o[1:] <= 0):
+                r.fail('object', sub, 'object reports an unusable FAS (not checkable here)', observed=(ff_o, fa_o))
+                continue
+            fpos_o = [float(v) for v in ff_o[1:]]
+            apos_o = [float(abs(v)) for v in fa_o[1:]]
+            tg = [float(v) for v in tg_o]
+            top = max(max(apos_o), FLOOR * scale)
+            r.expect('targets-owned', sub, tg == [float(v) for v in tl], 'the target frequencies changed with the record',
+                     observed=tg, expected=tl)
+            s1 = dict(sub, entry='smooth_fa_spectrum-lazy')
+            ok, arr = r.call('object==array', s1, frequency.calc_smooth_fa_spectrum, ff_o.copy(), fa_o.copy(), tg_o.copy())
+            if ok:
+                r.transitions += 1
+                r.expect_close('object==array', s1, lazy, arr, rtol=1e-12, scale=top,
+                               what='Signal.smooth_fa_spectrum after reset_values vs calc_smooth_fa_spectrum on its own FAS')
+            held = usable(lazy, len(tg))
+            if amax > 0 and held is not None and is_ascending(tg):
+                for rk in (RATIOS if scale != 1 else RATIOS[:1]):
+                    bandwidth_checks(r, dict(sub, b='default'), s, tg, held, rk, 'bandwidth')
+                for rk in (SIG_RATIOS if scale != 1 else SIG_RATIOS[:1]):
+                    bandwidth_checks(r, dict(sub, b='default'), s, tg, held, rk, 'get_sig_freq_range')
+            for b in (5, 100):
+                s2 = dict(sub, b=b, entry='gen_smooth_fa_spectrum')
+
+                def gen():
+                    s.gen_smooth_fa_spectrum(band=b)
+                    return np.array(s.smooth_fa_spectrum)
+                ok, sm = r.call('reference', s2, gen)
+                if ok:
+                    check_smoothed(r, s2, sm, fr.ko_smooth(fr.ko_matrix(fpos_o, tg, b), apos_o), apos_o, tg, fpos_o, False,
+                                   floor=FLOOR * scale)
 
 
 # ------------------------------------------------------------------------------ one word
@@ -415,6 +762,11 @@ def run_case(case):
                 r.cls('int-typed-frequencies')
             if adt is np.int64:
                 r.cls('int-typed-amplitudes')
+            for dt_ in (fdt, adt, tdt):
+                if dt_ in (np.uint8, np.int16):
+                    r.cls('narrow-or-unsigned-typed-argument')
+                if dt_ is np.float32:
+                    r.cls('float32-typed-argument')
             if coincide:
                 r.cls('coincidence')
             snaps = [snapshot(v) for v in (ff, aa, targets)]
@@ -449,7 +801,14 @@ def run_case(case):
                      'a smoothing function modified one of its argument arrays (frequencies, amplitudes, targets)',
                      observed=(ff, aa, targets))
 
+    # ---------------- array level: corners / hidden tolerances, call sequences, index range (third round)
+    run_extended(r, a, m, fpos, apos)
+    run_sequences(r, a, m, fpos, apos)
+    run_sig_indexes(r, a)
+
     # ---------------- object level
+    if m <= 7:
+        run_histories(r, a, m, N, f_all, apos, phases)
     for a0 in (0.0, 7.0):
         X = np.array([a0] + [apos[i] * phases[i] for i in range(m)] + [0.0], dtype=complex) / DT
         x = np.fft.irfft(X, n=N)
@@ -553,6 +912,17 @@ def run_case(case):
                         r.transitions += 1
                         r.expect_close('matrix==direct', s3, cm, sm, rtol=1e-10, scale=max(max(apos_o), FLOOR),
                                        what='custom-matrix form vs direct form')
+                        if b == BANDS[0] and isinstance(cm, np.ndarray) and cm.size:
+                            # the caller overwrites the returned array in place; the same call again
+                            first = np.array(cm)
+                            cm[...] = -5
+                            ok, cm2 = r.call('repeatable', s3, custom)
+                            if ok:
+                                r.cls('returned-array-overwritten')
+                                r.expect_close('repeatable', s3, cm2, first, rtol=1e-12, scale=max(max(apos_o), FLOOR),
+                                               what='custom-matrix form, second call after the caller overwrote the first result')
+                                # RESTRICTED: the array handed out by Signal.smooth_fa_spectrum itself is the object's cache on the
+                                # unchanged tree (overwriting it changes what the object reports) - not overwritten here
                     held = usable(sm, len(tg))
                     if b in (5, 100) and amax > 0 and is_ascending(tg) and held is not None:
                         bandwidth_checks(r, dict(sub, b=b), s, tg, held, None, 'bandwidth')
@@ -592,12 +962,23 @@ def run_case(case):
             table = np.array([v for t in t_last for v in (t, 3.0 * t)])
             ints = np.array(WHOLE_HZ, dtype=np.int64)
             ints2 = np.array(WHOLE_HZ, dtype=np.int64)
+            u8 = np.array(WHOLE_HZ, dtype=np.uint8)
+            u8b = np.array(WHOLE_HZ, dtype=np.uint8)
+            f32 = np.array(WHOLE_HZ, dtype=np.float32) + np.float32(0.5)
             steps = [('smooth_fa_freqs=', lambda: setattr(s, 'smooth_fa_freqs', list(t_off)), None),
                      ('smooth_fa_frequencies=', lambda: setattr(s, 'smooth_fa_frequencies', arr_grid), arr_grid),
                      ('smooth_fa_freqs=float64-array', lambda: setattr(s, 'smooth_fa_freqs', arr_off), arr_off),
                      ('smooth_fa_frequencies=view-of-table', lambda: setattr(s, 'smooth_fa_frequencies', table[::2]), table),
                      ('smooth_fa_freqs=int64-array', lambda: setattr(s, 'smooth_fa_freqs', ints), ints),
                      ('set_smooth_fa_frequecies_by_range', lambda: s.set_smooth_fa_frequecies_by_range((0.5, 20.0), 7), None),
+                     ('smooth_fa_freqs=uint8-array', lambda: setattr(s, 'smooth_fa_freqs', u8), u8),
+                     ('smooth_fa_frequencies=float32-array', lambda: setattr(s, 'smooth_fa_frequencies', f32), f32),
+                     ('smooth_fa_freqs=tuple', lambda: setattr(s, 'smooth_fa_freqs', tuple(t_last)), None),
+                     # deprecated setters that store targets on the object (range keeps the number of points, points keeps the range)
+                     ('smooth_freq_range=(deprecated)', lambda: setattr(s, 'smooth_freq_range', (0.3, 25.0)), None),
+                     ('smooth_freq_points=(deprecated)', lambda: setattr(s, 'smooth_freq_points', 5), None),
+                     ('gen_smooth_fa_spectrum(smooth_fa_freqs=uint8-array)', lambda: s.gen_smooth_fa_spectrum(
+                         smooth_fa_freqs=u8b, band=40), None),
                      # RESTRICTED (no overwrite afterwards): on the unchanged tree gen_smooth_fa_spectrum(smooth_fa_freqs=arr) stores the
                      # caller's array itself, so after `arr *= 2` the object reports the new targets next to the old amplitudes
                      # (reported to the maintainer of this check as a finding; lift the restriction when it is repaired)
@@ -630,6 +1011,10 @@ def run_case(case):
                                what='smoothed spectrum after changing the target frequencies')
                 if 'int64' in sname:
                     r.cls('int-typed-targets-on-object')
+                if 'uint8' in sname or 'float32' in sname:
+                    r.cls('narrow-typed-targets-on-object')
+                if 'deprecated' in sname:
+                    r.cls('deprecated-target-setters')
                 if kept is not None:
                     overwrite(kept)
                     if kept is table:
